@@ -1,6 +1,7 @@
 import RCE.Driver.Walk
 import RCE.Driver.Tables
 import RCE.Driver.SearchD
+import RCE.Driver.UciD
 
 def main (args : List String) : IO UInt32 := do
   match args with
@@ -8,4 +9,5 @@ def main (args : List String) : IO UInt32 := do
   | ["tables"] => RCE.Driver.runTables
   | ["search"] => RCE.Driver.runSearch 20
   | ["search", n] => RCE.Driver.runSearch n.toNat!
+  | ["uci"] => RCE.Driver.runUci
   | _ => IO.eprintln "usage: driver walk|tables|search|uci < stream"; return 2
